@@ -28,10 +28,13 @@ Section Calls.
     { destruct (alg_of am s) as [k l|rs|rs|]; cbn [raw_lock alg_refs] in *.
       - pose proof (run_rr_lock t m (RLeaf k l) w Q) as X. rewrite rsleaves_one in *. specialize (X ND').
         change (rr_lock m (RLeaf k l)) with (leaf_lock m k l) in X.
-        destruct (can_all m (rleaves (RLeaf k l)) (w_raw w)); [|exact X]. destruct X as [w' [R [E _]]]. now exists w'.
+        destruct (can_all m (rleaves (RLeaf k l)) (w_raw w)); [destruct X as [w' [R [E _]]]; now exists w'|].
+        destruct X as [w' [R _]]. now exists w'.
       - pose proof (run_ordered_lock t m rs w Q ND') as X.
-        destruct (can_all m (rsleaves rs) (w_raw w)); [|exact X]. destruct X as [w' [R [E _]]]. now exists w'.
-      - apply run_retry_lock; assumption.
+        destruct (can_all m (rsleaves rs) (w_raw w)); [destruct X as [w' [R [E _]]]; now exists w'|].
+        destruct X as [w' [R _]]. now exists w'.
+      - pose proof (run_retry_lock t m rs ND' fuel w Hf Q) as X.
+        destruct (can_all m (rsleaves rs) (w_raw w)); [exact X|]. destruct X as [w' [R _]]. now exists w'.
       - exists w. split; [reflexivity|apply eff_refl]. }
     destruct (can_all m (rsleaves (alg_refs (alg_of am s))) (w_raw w)); [|exact X].
     destruct X as [w' [R E]]. exists w'. split; [exact R|].
